@@ -6,6 +6,7 @@ Correspondence with Model/FilterMct.lean (ops c04_mct, c04_next) + direct oracle
 is within 1e-9 of its completeness magnitude is in a band where either answer is accepted, and generated times keep 0.01 ms
 away from t_crit_epoch unless t_crit is exactly representable (1, 10, 100 days), where the boundary itself is exercised."""
 import datetime
+import json
 import math
 import types
 from fractions import Fraction
@@ -16,13 +17,13 @@ from .core import frac
 
 # Input classes on which the UNCHANGED code misbehaves and that wait for a decision (genuine-defect candidates, see notes/C04.md).
 # While an entry is listed its class is not generated; delete the entry and the generator produces it and the oracle reports it.
+# W-C04-1 (apply_mct on an empty catalog) and W-C04-2 (filter_spatial with a quadtree region) were repaired in /repo by D37 (cafbaf1)
+# and D42 (cf7bcb4); both classes are generated since and their witnesses are corpus cases.
 AWAITING_DECISION = [
-    dict(id="W-C04-1", cls="mct-empty-catalog",
-         what="apply_mct on a catalog without events raises IndexError (times[0], catalogs.py:625); reached from "
-              "CatalogForecast.__next__ when the carried filters leave no event and apply_mct=True, and by a second apply_mct "
-              "after the first removed every event"),
-    dict(id="W-C04-2", cls="spatial-quadtree-region",
-         what="filter_spatial(QuadtreeGrid2D) raises AttributeError: QuadtreeGrid2D has no get_masked (regions.py:1009 ff.)"),
+    dict(id="W-C04-3", cls="spatial-nan-coordinate-cartesian",
+         what="filter_spatial(CartesianGrid2D) on a catalog holding an event whose latitude or longitude is NaN raises IndexError "
+              "(bin1d_vec turns NaN into the minimum int64, regions.py get_masked indexes with it) instead of removing the event, "
+              "which lies in no cell; QuadtreeGrid2D.get_masked removes it"),
 ]
 _AWAIT = {w["cls"] for w in AWAITING_DECISION}
 
@@ -50,7 +51,7 @@ def decide_below(row_t, row_m, epoch, m_main):
     """(below, in_band) for a row inside the window"""
     m = mct_of(row_t, epoch, m_main)
     if m == math.inf:
-        return True, False
+        return row_m < m, False              # every reported magnitude is below +inf; an unreported one (NaN) is not
     band = abs(row_m - m) <= 1e-9 * max(1.0, abs(m))
     return row_m < m, band
 
@@ -65,7 +66,7 @@ def gen_mct_params(rng):
     return m_main, mc, epoch
 
 
-def gen_mct_rows(rng, m_main, mc, epoch, n, sorted_=True):
+def gen_mct_rows(rng, m_main, mc, epoch, n, sorted_=True, nan_ok=False):
     from . import c04 as base
     days, tcm, tcrit = tcrit_of(m_main, epoch, mc)
     exact = days in EXACT_TCRIT_DAYS
@@ -89,6 +90,8 @@ def gen_mct_rows(rng, m_main, mc, epoch, n, sorted_=True):
             m = rng.choice([mc, mc - 0.1, mc + 0.1, m_main, 9.5, 0.0, -1.0])
         else:
             m = rng.uniform(-1, 9.5)
+        if nan_ok and rng.random() < 0.04:
+            m = float("nan")                     # unreported magnitude: `mw < mct` is false, the event is kept
         rows.append((i + 1, t, rng.choice([0.0, 35.2, -41.3]), rng.choice([0.0, -118.1, 172.6]), float(rng.randrange(0, 30)), float(m)))
     if sorted_:
         rows.sort(key=lambda r: r[1])
@@ -102,10 +105,10 @@ def gen_mct_rows(rng, m_main, mc, epoch, n, sorted_=True):
 def gen_mct_case(rng):
     m_main, mc, epoch = gen_mct_params(rng)
     n = rng.choice([1, 2, 3, 5, 8, 13, 20, 40])
-    if "mct-empty-catalog" not in _AWAIT and rng.random() < 0.1:
-        n = 0
+    if rng.random() < 0.08:
+        n = 0                                   # D37: an empty catalog is returned as it is
     srt = rng.random() < 0.8
-    rows = gen_mct_rows(rng, m_main, mc, epoch, n, srt)
+    rows = gen_mct_rows(rng, m_main, mc, epoch, n, srt, nan_ok=True)
     return dict(kind="mct", m_main=repr(m_main), mc=repr(mc), epoch=epoch, epoch_kind=rng.choice(["int", "int", "np", "float"]),
                 pass_mc=(mc != 2.5 or rng.random() < 0.5), events=[list(r) for r in rows], sorted=srt,
                 with_state=rng.random() < 0.3, twice=rng.random() < 0.5, commute=rng.random() < 0.4,
@@ -151,6 +154,28 @@ def _mk(rows, **kw):
                              for r in rows], **kw)
 
 
+def _guarded(fn):
+    """Lesson: a harness crash is a missed detection. An exception while the implementation's output is being interpreted
+    (unexpected shape / dtype / type / missing key) is reported as an oracle failure with the case as replay, not as exit 2.
+    Driver failures and KeyboardInterrupt still propagate."""
+    import functools
+
+    @functools.wraps(fn)
+    def wrapper(run, *args, **kw):
+        try:
+            return fn(run, *args, **kw)
+        except (RuntimeError, KeyboardInterrupt, MemoryError):
+            raise
+        except Exception as ex:
+            case = next((a for a in args if isinstance(a, dict)), None)
+            import traceback
+            where = traceback.extract_tb(ex.__traceback__)[-1]
+            run.oracle_failure(case, f"the implementation's output could not be interpreted ({type(ex).__name__}: {ex} at "
+                                     f"{where.name}:{where.lineno}): it deviates in shape / type from what the property describes")
+    return wrapper
+
+
+@_guarded
 def mct_case(run, drv, pending, case, rng=None):
     from . import c04 as base
     rows = [tuple(r) for r in case["events"]]
@@ -175,7 +200,7 @@ def mct_case(run, drv, pending, case, rng=None):
     try:
         res = cat.apply_mct(*args)
     except Exception as e:
-        run.oracle_failure(case, f"apply_mct raised {type(e).__name__}: {e}", signature="W-C04-1" if not rows else None)
+        run.oracle_failure(case, f"apply_mct raised {type(e).__name__}: {e}")
         return
     got = base.snapshot(cat)
     if res is not cat:
@@ -205,7 +230,10 @@ def mct_case(run, drv, pending, case, rng=None):
         run.count("mct:decision-band")
     # model (the loop as coded). An implementation that is the one-pass filter on an unsorted catalog is accepted by the oracle
     # and not compared with the model (the property leaves unsorted catalogs to the documented assumption)
-    if ok_loop:
+    hasnan = any(float.fromhex(r[5]) != float.fromhex(r[5]) for r in rows)
+    if hasnan:
+        run.count("mct:nan-magnitude (oracle only)")
+    if ok_loop and not hasnan:
         i = drv.ask(" ".join(["c04_mct", base.enc_events(rows),
                               f"{frac(float(epoch)) if case['epoch_kind'] == 'float' else epoch};{frac(tcrit)};"
                               + (",".join(str(k) for k in sorted(below)) or "-")]))
@@ -213,7 +241,7 @@ def mct_case(run, drv, pending, case, rng=None):
     else:
         run.count("mct:unsorted-one-pass-semantics")
     # idempotence on the implementation (a second call on a non-empty result; an emptied catalog is class W-C04-1)
-    if case.get("twice") and (got or "mct-empty-catalog" not in _AWAIT):
+    if case.get("twice"):
         try:
             cat.apply_mct(*args)
             if strip(base.snapshot(cat)) != strip(got):
@@ -221,10 +249,10 @@ def mct_case(run, drv, pending, case, rng=None):
                 return
             run.count("mct:twice")
         except Exception as e:
-            run.oracle_failure(case, f"second apply_mct raised {type(e).__name__}: {e}", signature="W-C04-1" if not got else None)
+            run.oracle_failure(case, f"second apply_mct raised {type(e).__name__}: {e}")
             return
     # commutation with statement filters on sorted catalogs (implementation's own outputs)
-    if case.get("commute") and srt and rows:
+    if case.get("commute") and srt and rows and not hasnan:
         import random
         r2 = random.Random(case["stmt_seed"])
         sts = [base.gen_stmt(r2, rows) for _ in range(r2.randint(1, 2))]
@@ -233,12 +261,13 @@ def mct_case(run, drv, pending, case, rng=None):
         a = _mk(rows).filter(list(texts))
         b = _mk(rows).apply_mct(*args)
         try:
-            if a.event_count or "mct-empty-catalog" not in _AWAIT:
-                ga = base.snapshot(a.apply_mct(*args))
-                if strip(ga) != strip(want):
-                    run.oracle_failure(dict(case, stmts=texts), f"filter({texts}) then apply_mct kept {[r[0] for r in ga]}, "
-                                                                 f"expected {[r[0] for r in want]}")
-                    return
+            ga = base.snapshot(a.apply_mct(*args))
+            if strip(ga) != strip(want):
+                run.oracle_failure(dict(case, stmts=texts), f"filter({texts}) then apply_mct kept {[r[0] for r in ga]}, "
+                                                             f"expected {[r[0] for r in want]}")
+                return
+            if not a.event_count:
+                run.count("mct:after-filter-emptied-catalog")
             gb = base.snapshot(b.filter(list(texts)))
             if strip(gb) != strip(want):
                 run.oracle_failure(dict(case, stmts=texts), f"apply_mct then filter({texts}) kept {[r[0] for r in gb]}, "
@@ -283,6 +312,7 @@ def gen_next_case(rng):
                 catalogs=[[list(r) for r in rows] for rows in cats])
 
 
+@_guarded
 def next_case(run, drv, pending, case):
     from . import c04 as base
     from csep.core.forecasts import CatalogForecast
@@ -302,8 +332,7 @@ def next_case(run, drv, pending, case):
         band, mline = set(), "none"
         if case["use_mct"]:
             if not cur:
-                exps.append(("exc", None, set(), None))
-                continue
+                run.count("next:mct-on-emptied-catalog")
             pure, _, band, below, tcrit = mct_expect(cur, m_main, 2.5, epoch)
             mline = f"{epoch};{frac(tcrit)};" + (",".join(str(k) for k in sorted(below)) or "-")
             cur = pure
@@ -315,9 +344,6 @@ def next_case(run, drv, pending, case):
             band |= {r[0] for r in cur if base.in_band(rr, float.fromhex(r[3]), float.fromhex(r[2]))}
             cur = [r for r in cur if base.inside_exact(rr, float.fromhex(r[3]), float.fromhex(r[2]))]
         exps.append(("ok", cur, band, mline))
-    if any(e[0] == "exc" and e[3] is None for e in exps) and "mct-empty-catalog" in _AWAIT:
-        run.count("next:skipped-awaiting-W-C04-1")
-        return
     kw = dict(region=cregobj) if cregobj is not None else {}
     cats = [_mk(rows, **kw) for rows in catrows]
     fc = CatalogForecast(catalogs=cats, filters=base.py_stmts(sts, case["stmts_form"]) if sts else None,
@@ -327,9 +353,6 @@ def next_case(run, drv, pending, case):
               + (":spatial" if case["use_spatial"] else ""))
     emptied = False
     for pas in range(2):     # second pass: the stored catalogs were filtered in place, filtering is idempotent
-        if pas == 1 and case["apply_filters"] and case["use_mct"] and "mct-empty-catalog" in _AWAIT and emptied:
-            run.count("next:second-pass-skipped-awaiting-W-C04-1")   # a stored catalog is now empty: apply_mct would raise
-            break
         it = iter(fc)
         for k, (kind, want, band, mline) in enumerate(exps):
             try:
@@ -344,8 +367,7 @@ def next_case(run, drv, pending, case):
                         i = drv.ask(_next_line(base, case, catrows[k], mline or "none"))
                         pending.append((dict(case, catalog=k), i, "exc", []))
                     return        # the pass is aborted by the exception
-                run.oracle_failure(case, f"pass {pas}: __next__ raised {type(e).__name__}: {e} on catalog {k}",
-                                   signature="W-C04-1" if isinstance(e, IndexError) else None)
+                run.oracle_failure(case, f"pass {pas}: __next__ raised {type(e).__name__}: {e} on catalog {k}")
                 return
             if kind == "exc":
                 run.oracle_failure(case, f"pass {pas}: catalog {k} was yielded although filter_spatial has no region")
@@ -390,7 +412,18 @@ def gen_extra_case(rng):
     k = rng.random()
     if k < 0.5:
         call = dict(kind="spatial", update_stats=rng.random() < 0.6, in_place=rng.random() < 0.5,
-                    region_kind="quadtree" if ("spatial-quadtree-region" not in _AWAIT and rng.random() < 0.3) else "cart")
+                    region_kind="quadtree" if rng.random() < 0.35 else "cart", quad=rng.choice(["single1", "single2", "keys"]))
+        if call["region_kind"] == "quadtree":
+            # events on tile corners / edges, inside, beyond the grid's latitude bounds, on longitude 180, duplicates
+            tiles = [tuple(float(v) for v in r) for r in _quad_region(call["quad"]).bounds]
+            evs2 = []
+            for e in evs:
+                x0, y0, x1, y1 = rng.choice(tiles)
+                lon, lat = rng.choice([(x0, y0), (x1, y0 + (y1 - y0) / 3), (x0 + (x1 - x0) / 4, y1), ((x0 + x1) / 2, (y0 + y1) / 2),
+                                       (x0 + (x1 - x0) / 8, y0), (180.0, 10.0), (rng.uniform(-180, 180), rng.choice([86.0, -86.5, 89.9])),
+                                       (rng.uniform(-180, 180), rng.uniform(-85, 85))])
+                evs2.append((e[0], e[1], float(lat), float(lon), e[4], e[5]))
+            rows = [base.row_of(e) for e in evs2]
     else:
         m = rng.choice([1, 1, 2, 3])
         sts = [base.gen_stmt(rng, rows) for _ in range(m)]
@@ -401,22 +434,34 @@ def gen_extra_case(rng):
     return dict(kind="extra", events=[list(r) for r in rows], region=reg, call=call)
 
 
+def _quad_region(name):
+    from csep.core.regions import QuadtreeGrid2D
+    if name == "single1":
+        return QuadtreeGrid2D.from_single_resolution(1)
+    if name == "single2":
+        return QuadtreeGrid2D.from_single_resolution(2)
+    return QuadtreeGrid2D.from_quadkeys(["01", "1", "200", "31"])      # tiles of three sizes, gaps between them
+
+
 def _stats(cat):
     return (cat.min_magnitude, cat.max_magnitude, cat.min_latitude, cat.max_latitude, cat.min_longitude, cat.max_longitude)
 
 
-def extra_case(run, case):
+@_guarded
+def extra_case(run, case, drv=None, pending=None):
     from . import c04 as base
     rows = [tuple(r) for r in case["events"]]
     reg, call = case["region"], case["call"]
     cat = _mk(rows)
     band = set()
+    qbounds = None
     try:
         if call["kind"] == "spatial":
             if call.get("region_kind") == "quadtree":
                 from csep.core.regions import QuadtreeGrid2D
-                robj = QuadtreeGrid2D.from_single_resolution(2)
+                robj = _quad_region(call.get("quad", "single2"))
                 b = [tuple(float(v) for v in r) for r in robj.bounds]
+                qbounds = b
                 want = [r for r in rows if any(x0 <= float.fromhex(r[3]) < x1 and y0 <= float.fromhex(r[2]) < y1 for x0, y0, x1, y1 in b)]
             else:
                 robj = base.build_region(reg)
@@ -429,13 +474,16 @@ def extra_case(run, case):
             res = cat.filter(base.py_stmts(call["stmts"], call["form"]), in_place=call["in_place"])
             run.count(f"extra:filter:{call['form']}:in_place={call['in_place']}")
     except Exception as e:
-        run.oracle_failure(case, f"{call['kind']} raised {type(e).__name__}: {e}",
-                           signature="W-C04-2" if call.get("region_kind") == "quadtree" else None)
+        run.oracle_failure(case, f"{call['kind']} raised {type(e).__name__}: {e}")
         return
     got = base.snapshot(res)
     if [r for r in got if r[0] not in band] != [r for r in want if r[0] not in band]:
         run.oracle_failure(case, f"{call['kind']}: kept ids {[r[0] for r in got]} expected {[r[0] for r in want]}")
         return
+    if qbounds is not None and drv is not None:
+        run.count("extra:spatial:quadtree-region")
+        i = drv.ask(" ".join(["c04_spq", base.enc_events(rows)] + [",".join(frac(t[c]) for t in qbounds) for c in range(4)]))
+        pending.append((case, i, ",".join(str(r[0]) for r in got) or "-", []))
     if call["in_place"]:
         if res is not cat:
             run.oracle_failure(case, "in_place=True did not return the catalog itself")
@@ -485,11 +533,373 @@ def extra_case(run, case):
     run.case(dict(kind="extra", call=call["kind"]), ("extra", tuple(rows), str(call)) if 0 < len(got) < len(rows) else None)
 
 
+# ----------------------------------------------------------------------------- NaN / infinite attribute values and thresholds
+NONFINITE = [float("nan"), float("nan"), float("inf"), float("-inf")]
+
+
+def _fenc(x):
+    if x != x:
+        return "nan"
+    if x in (float("inf"), float("-inf")):
+        return "inf" if x > 0 else "-inf"
+    return frac(x)
+
+
+def gen_nan_case(rng):
+    from . import c04 as base
+    n = rng.choice([1, 2, 3, 5, 8, 15, 30])
+    evs = base.gen_events(rng, n)
+    rows = []
+    for e in evs:
+        e = list(e)
+        for col in (2, 3, 4, 5):                       # latitude, longitude, depth, magnitude
+            p = 0.25 if col == 4 else 0.08             # unreported depth is the common case
+            if rng.random() < p:
+                e[col] = rng.choice(NONFINITE)
+        rows.append(base.row_of(tuple(e)))
+    sts = []
+    for _ in range(rng.randint(1, 4)):
+        name, key = rng.choice(base.ATTRS)
+        sym, op = rng.choice(base.OPS)
+        fin = [float.fromhex(r[base.COL[key]]) for r in rows if key != "t"]
+        fin = [v for v in fin if v == v and abs(v) != float("inf")]
+        k = rng.random()
+        if k < 0.2:
+            v = rng.choice(NONFINITE)
+        elif key == "t":
+            v = float(rng.choice(rows)[1] + rng.choice([0, 0, 1, -1]))
+        elif fin and k < 0.8:
+            v = rng.choice(fin)
+        else:
+            v = float(rng.randrange(-5, 40))
+        txt = rng.choice(["nan", "NaN"]) if v != v else (rng.choice(["inf", "Infinity"]) if v == float("inf") else
+                                                           ("-inf" if v == float("-inf") else repr(v)))
+        assert (float(txt) == v) or (v != v and float(txt) != float(txt))
+        sts.append(dict(text=f"{name} {sym} {txt}", enc=f"{key},{op},{_fenc(v)}", attr=key, op=op, value=txt))
+    # a statement and its complement, applied one after the other: nothing may survive (rows with a NaN attribute satisfy neither)
+    compl = None
+    if rng.random() < 0.4:
+        name, key = rng.choice(base.ATTRS[1:])
+        v = float(rng.randrange(0, 40))
+        pair = rng.choice([("<=", "le", ">", "gt"), ("<", "lt", ">=", "ge"), (">", "gt", "<=", "le"), (">=", "ge", "<", "lt")])
+        compl = [dict(text=f"{name} {pair[0]} {v!r}", enc=f"{key},{pair[1]},{frac(v)}", attr=key, op=pair[1], value=repr(v)),
+                 dict(text=f"{name} {pair[2]} {v!r}", enc=f"{key},{pair[3]},{frac(v)}", attr=key, op=pair[3], value=repr(v))]
+    return dict(kind="nan", events=[list(r) for r in rows], stmts=sts, compl=compl, dtype=rng.choice(DTYPES), seed=rng.randrange(2 ** 32))
+
+
+def ieee_holds(row, st):
+    """IEEE-754 comparison of the row's attribute with the threshold; exact (Fraction) when both are finite"""
+    from . import c04 as base
+    v = float(st["value"])
+    a = row[1] if st["attr"] == "t" else float.fromhex(row[base.COL[st["attr"]]])
+    if v != v or (isinstance(a, float) and a != a):
+        return False
+    fa = Fraction(a) if abs(a) != float("inf") else a
+    fv = Fraction(v) if abs(v) != float("inf") else v
+    return base.OPF[st["op"]](fa, fv)
+
+
+def _enc_events_f(rows):
+    if not rows:
+        return "-"
+    return ";".join(",".join([str(r[0]), str(r[1])] + [_fenc(float.fromhex(h)) for h in r[2:]]) for r in rows)
+
+
+DTYPES = ["list", "list", "native-array", "big-endian-array"]
+
+
+def _mk_dt(rows, how, **kw):
+    """catalog from a list of tuples or from a structured array in native / non-native byte order"""
+    from csep.core.catalogs import CSEPCatalog
+    tup = [(str(r[0]), r[1], float.fromhex(r[2]), float.fromhex(r[3]), float.fromhex(r[4]), float.fromhex(r[5])) for r in rows]
+    if how == "list":
+        return CSEPCatalog(data=[(r[0],) + t[1:] for r, t in zip(rows, tup)], **kw)
+    bo = ">" if how == "big-endian-array" else "<"
+    dt = numpy.dtype([("id", "S256"), ("origin_time", bo + "i8"), ("latitude", bo + "f8"), ("longitude", bo + "f8"),
+                      ("depth", bo + "f8"), ("magnitude", bo + "f8")])
+    return CSEPCatalog(data=numpy.array(tup, dtype=dt), **kw)
+
+
+@_guarded
+def nan_case(run, drv, pending, case):
+    from . import c04 as base
+    import random
+    rows = [tuple(r) for r in case["events"]]
+    sts = case["stmts"]
+    texts = [s["text"] for s in sts]
+    r2 = random.Random(case["seed"])
+    want = [r for r in rows if all(ieee_holds(r, s) for s in sts)]
+    how = case.get("dtype", "list")
+    run.count("nan:dtype-" + how)
+    try:
+        outs = {"list": base.snapshot(_mk_dt(rows, how).filter(list(texts), in_place=r2.random() < 0.5))}
+        sh = list(texts)
+        r2.shuffle(sh)
+        outs["shuffled"] = base.snapshot(_mk_dt(rows, how).filter(tuple(sh), in_place=r2.random() < 0.5))
+        c = _mk_dt(rows, how)
+        keep0 = base.snapshot(c)
+        for t in texts:
+            c2 = c.filter(t, in_place=r2.random() < 0.5)
+            c = c2
+        outs["one-by-one"] = base.snapshot(c)
+        outs["twice"] = base.snapshot(_mk_dt(rows, how).filter(texts).filter(texts))
+        if keep0 != rows:
+            run.oracle_failure(case, "the constructor changed the rows")
+            return
+        if case.get("compl"):
+            ct = [s["text"] for s in case["compl"]]
+            outs["complement-pair"] = base.snapshot(_mk_dt(rows, how).filter(ct[0]).filter(ct[1]))
+            outs["complement-list"] = base.snapshot(_mk_dt(rows, how).filter(ct, in_place=False))
+    except Exception as e:
+        run.oracle_failure(case, f"filter on a catalog with NaN / infinite values raised {type(e).__name__}: {e}")
+        return
+    for nm, got in outs.items():
+        exp = [] if nm.startswith("complement") else want
+        if got != exp:
+            run.oracle_failure(case, f"{nm}: statements {texts if not nm.startswith('complement') else [s['text'] for s in case['compl']]} "
+                                     f"kept ids {[r[0] for r in got]}; the rows for which every statement is true (IEEE comparison, NaN "
+                                     f"compares false) are {[r[0] for r in exp]}")
+            return
+    nanrows = sum(1 for r in rows if any(float.fromhex(h) != float.fromhex(h) for h in r[2:]))
+    if nanrows:
+        run.count("nan:catalog-with-nan-attribute")
+    if any(float(s["value"]) != float(s["value"]) for s in sts):
+        run.count("nan:nan-threshold")
+    if case.get("compl"):
+        run.count("nan:complement-pair")
+    i = drv.ask(" ".join(["c04_nan", _enc_events_f(rows), ";".join(s["enc"] for s in sts)]))
+    pending.append((case, i, ",".join(str(r[0]) for r in outs["list"]) or "-", []))
+    run.case(dict(kind="nan", n=len(rows), stmts=texts[:3]), ("nan", tuple(rows), tuple(texts)) if nanrows else None)
+
+
+# ----------------------------------------------------------------------------- sessions: objects sharing a region, caller edits
+def gen_session_case(rng):
+    from . import c04 as base
+    n = [rng.choice([0, 1, 3, 6, 12, 25]), rng.choice([1, 4, 10])]
+    m_main, mc, epoch = gen_mct_params(rng)
+    cats = [gen_mct_rows(rng, m_main, mc, epoch, k, True) for k in n]
+    quad = rng.random() < 0.4
+    reg = None
+    if not quad:
+        reg = base.gen_region(rng, cats[0] + cats[1])
+        cats = [[base.row_of(e) for e in base.place_events_in_region(
+            rng, [(r[0], r[1], float.fromhex(r[2]), float.fromhex(r[3]), float.fromhex(r[4]), float.fromhex(r[5])) for r in rows], reg)]
+            for rows in cats]
+        for rows in cats:
+            rows.sort(key=lambda r: r[1])
+    allrows = cats[0] + cats[1]
+    ops = []
+    for _ in range(rng.randint(3, 8)):
+        k = rng.random()
+        tg = rng.randrange(2)
+        if k < 0.35:
+            m = rng.choice([1, 1, 2, 3])
+            sts = [base.gen_stmt(rng, allrows) for _ in range(m)]
+            ops.append(dict(op="filter", target=tg, stmts=sts, form=rng.choice(["string", "list", "tuple"]) if m == 1 else rng.choice(["list", "tuple"]),
+                            in_place=rng.random() < 0.6))
+        elif k < 0.45:
+            ops.append(dict(op="refilter", target=tg, in_place=rng.random() < 0.6))            # filter() through the stored filters
+        elif k < 0.6:
+            ops.append(dict(op="spatial", target=tg, explicit=rng.random() < 0.5, in_place=rng.random() < 0.6, update_stats=rng.random() < 0.5))
+        elif k < 0.75:
+            ops.append(dict(op="mct", target=tg))
+        else:
+            ops.append(dict(op="edit", target=tg, row=rng.randrange(64), field=rng.choice(["magnitude", "depth", "origin_time"]),
+                            value=rng.choice([repr(round(rng.uniform(0, 9), 1)), repr(float(rng.randrange(0, 50)))])))
+    return dict(kind="session", m_main=repr(m_main), mc=repr(mc), epoch=epoch, quad=("keys" if quad else None), region=reg, catalogs=[[list(r) for r in c] for c in cats],
+                ops=ops, dtype=rng.choice(DTYPES), bound=rng.random() < 0.6)
+
+
+@_guarded
+def session_case(run, drv, pending, case):
+    """TWO catalog objects sharing ONE region object; filter / filter() / filter_spatial / apply_mct in both in_place modes,
+    interleaved with writes of the caller into an event array. After EVERY step every live object must hold exactly the rows the
+    step's predicate keeps of the target AS IT WAS BEFORE THE STEP (recomputed from scratch), all others unchanged."""
+    from . import c04 as base
+    from csep.core.exceptions import CSEPCatalogException
+    m_main, mc, epoch = float(case["m_main"]), float(case["mc"]), case["epoch"]
+    quad, reg = case["quad"], case["region"]
+    robj = _quad_region(quad) if quad else base.build_region(reg)
+    qb = [tuple(float(v) for v in r) for r in robj.bounds] if quad else None
+    how = case.get("dtype", "list")
+    objs = [_mk_dt([tuple(r) for r in rows], how, **(dict(region=robj) if case["bound"] else {})) for rows in case["catalogs"]]
+    state = [dict(rows=[tuple(r) for r in rows], filters=[], region=case["bound"]) for rows in case["catalogs"]]
+    run.count("session:" + ("quadtree" if quad else "cartesian") + ":" + how)
+
+    def inside(r):
+        lon, lat = float.fromhex(r[3]), float.fromhex(r[2])
+        if quad:
+            return any(x0 <= lon < x1 and y0 <= lat < y1 for x0, y0, x1, y1 in qb)
+        return base.inside_exact(reg, lon, lat)
+    band = set()
+    for step, o in enumerate(case["ops"]):
+        tg = o["target"] % len(objs)
+        tobj, tst = objs[tg], state[tg]
+        before = [base.snapshot(x) for x in objs]
+        if before != [s_["rows"] if not band else before[k] for k, s_ in enumerate(state)] and not band:
+            run.oracle_failure(dict(case, failed_step=step), f"before step {step} the catalogs do not hold the rows of the previous steps")
+            return
+        expect_exc, newobj, mline = False, False, None
+        try:
+            if o["op"] == "edit":
+                if tst["rows"]:
+                    j = o["row"] % len(tst["rows"])
+                    val = float(o["value"])
+                    r = list(tst["rows"][j])
+                    if o["field"] == "origin_time":
+                        tobj.catalog["origin_time"][j] = int(val) + r[1]
+                        r[1] = int(val) + r[1]
+                    else:
+                        tobj.catalog[o["field"]][j] = val
+                        r[{"depth": 4, "magnitude": 5}[o["field"]]] = val.hex()
+                    tst["rows"] = tst["rows"][:j] + [tuple(r)] + tst["rows"][j + 1:]
+                    run.count("session:caller-edit")
+                continue
+            if o["op"] == "filter":
+                sts = o["stmts"]
+                expected = [r for r in tst["rows"] if all(base.holds(r, s) for s in sts)]
+                res = tobj.filter(base.py_stmts(sts, o["form"]), in_place=o["in_place"])
+                mline = " ".join(["c04_hist", base.enc_events(tst["rows"]), "-", "none", f"f:0:1:{base.enc_stmts(sts)}"])
+                newf = list(sts)
+            elif o["op"] == "refilter":
+                sts = tst["filters"]
+                expect_exc = not sts
+                expected = [r for r in tst["rows"] if all(base.holds(r, s) for s in sts)]
+                res = tobj.filter(in_place=o["in_place"])
+                newf = list(sts)
+            elif o["op"] == "spatial":
+                use_region = o["explicit"] or tst["region"]
+                expect_exc = not use_region
+                expected = [r for r in tst["rows"] if inside(r)]
+                if not quad:
+                    band |= {r[0] for r in tst["rows"] if base.in_band(reg, float.fromhex(r[3]), float.fromhex(r[2]))}
+                res = tobj.filter_spatial(robj if o["explicit"] else None, update_stats=o["update_stats"], in_place=o["in_place"])
+                if quad:
+                    mline = " ".join(["c04_spq", base.enc_events(tst["rows"])] + [",".join(frac(t[c]) for t in qb) for c in range(4)])
+                newf = None
+            else:
+                srt = all(tst["rows"][i][1] <= tst["rows"][i + 1][1] for i in range(len(tst["rows"]) - 1))
+                pure, loop, b2, below, tcrit = mct_expect(tst["rows"], m_main, mc, epoch)
+                band |= b2
+                expected = pure if srt else loop
+                res = tobj.apply_mct(m_main, epoch, mc)
+                o = dict(o, in_place=True)
+                mline = " ".join(["c04_mct", base.enc_events(tst["rows"]), f"{epoch};{frac(tcrit)};" + (",".join(str(k) for k in sorted(below)) or "-")])
+                newf = None
+                if not srt:
+                    mline = None
+        except CSEPCatalogException:
+            if not expect_exc:
+                run.oracle_failure(dict(case, failed_step=step), f"step {step} {o['op']} raised CSEPCatalogException")
+                return
+            if [base.snapshot(x) for x in objs] != before:
+                run.oracle_failure(dict(case, failed_step=step), f"step {step} raised but changed a catalog")
+                return
+            run.count("session:exception")
+            continue
+        except Exception as e:
+            run.oracle_failure(dict(case, failed_step=step), f"step {step} {o['op']} raised {type(e).__name__}: {e}")
+            return
+        if expect_exc:
+            run.oracle_failure(dict(case, failed_step=step), f"step {step} {o['op']} returned although there is nothing to filter by")
+            return
+        run.count("session:" + o["op"])
+        inpl = o["in_place"]
+        if inpl and res is not tobj:
+            run.oracle_failure(dict(case, failed_step=step), f"step {step} {o['op']}: in place, but another object was returned")
+            return
+        if not inpl and any(res is x for x in objs):
+            run.oracle_failure(dict(case, failed_step=step), f"step {step} {o['op']}: in_place=False returned an existing object")
+            return
+        try:
+            got = base.snapshot(res)
+        except Exception as e:
+            run.oracle_failure(dict(case, failed_step=step), f"step {step}: the result is not a readable catalog ({type(e).__name__}: {e})")
+            return
+
+        def strip(rs):
+            return [r for r in rs if r[0] not in band]
+        if strip(got) != strip(expected):
+            run.oracle_failure(dict(case, failed_step=step),
+                               f"step {step} {o['op']} (in_place={inpl}) on catalog {tg} after {[x['op'] for x in case['ops'][:step]]}: kept ids "
+                               f"{[r[0] for r in got]}, the rows of the catalog as it was that satisfy the step are {[r[0] for r in expected]}")
+            return
+        after = [base.snapshot(x) for x in objs]
+        for k in range(len(objs)):
+            if k == tg and inpl:
+                continue
+            if after[k] != before[k]:
+                run.oracle_failure(dict(case, failed_step=step), f"step {step} {o['op']} (in_place={inpl}) changed catalog object {k}")
+                return
+        if mline is not None and not (band and o["op"] != "filter"):
+            i = drv.ask(mline)
+            impl = ",".join(str(r[0]) for r in got if r[0] not in band) or "-"
+            pending.append((dict(case, failed_step=step), i, impl, sorted(band)))
+        nst = dict(rows=got, filters=(newf if newf is not None else (tst["filters"] if inpl else [])),
+                   region=(True if (o["op"] == "spatial") else tst["region"]))
+        if o["op"] in ("filter", "refilter"):
+            tst["filters"] = newf
+        if o["op"] == "spatial":
+            tst["region"] = True
+        if inpl:
+            state[tg] = dict(nst, filters=tst["filters"] if o["op"] != "spatial" else tst["filters"])
+            state[tg]["rows"] = got
+        else:
+            objs.append(res)
+            state.append(nst)
+    run.case(dict(kind="session", ops=[x["op"] for x in case["ops"]]), ("session", json.dumps(case, sort_keys=True, default=str)))
+
+
+# ----------------------------------------------------------------------------- sizes: catalogs with more than 2^16 events
+def gen_bigfilter_case(rng):
+    from . import c04 as base
+    distinct = base.gen_events(rng, rng.randint(3, 9))
+    rows = [base.row_of(e) for e in distinct]
+    sts = [base.gen_stmt(rng, rows, allow_dt=False) for _ in range(rng.randint(1, 3))]
+    return dict(kind="bigfilter", distinct=[list(r) for r in rows], n=rng.choice([65537, 70000, 131073]) + rng.randrange(0, 7),
+                stmts=sts, in_place=rng.random() < 0.5, dtype=rng.choice(["native-array", "big-endian-array"]))
+
+
+@_guarded
+def bigfilter_case(run, case):
+    from . import c04 as base
+    from csep.core.catalogs import CSEPCatalog
+    rows = [tuple(r) for r in case["distinct"]]
+    n, k = case["n"], len(case["distinct"])
+    bo = ">" if case["dtype"] == "big-endian-array" else "<"
+    dt = numpy.dtype([("id", "S256"), ("origin_time", bo + "i8"), ("latitude", bo + "f8"), ("longitude", bo + "f8"),
+                      ("depth", bo + "f8"), ("magnitude", bo + "f8")])
+    data = numpy.zeros(n, dtype=dt)
+    which = numpy.arange(n) % k
+    data["id"] = numpy.arange(n).astype("S256")
+    for name, col in (("origin_time", 1), ("latitude", 2), ("longitude", 3), ("depth", 4), ("magnitude", 5)):
+        vals = numpy.array([r[col] if col == 1 else float.fromhex(r[col]) for r in rows])
+        data[name] = vals[which]
+    keep = numpy.array([all(base.holds(r, s) for s in case["stmts"]) for r in rows])
+    want_ids = numpy.arange(n)[keep[which]]
+    texts = [s["text"] for s in case["stmts"]]
+    run.count("bigfilter:" + case["dtype"])
+    try:
+        cat = CSEPCatalog(data=data.copy())
+        res = cat.filter(list(texts), in_place=case["in_place"])
+        got_ids = numpy.array([int(x) for x in res.get_event_ids()], dtype=numpy.int64)
+        cnt = res.event_count
+    except Exception as e:
+        run.oracle_failure(case, f"filter on a catalog of {n} events raised {type(e).__name__}: {e}")
+        return
+    if cnt != len(want_ids) or not numpy.array_equal(got_ids, want_ids):
+        run.oracle_failure(case, f"filter({texts}) on {n} events kept {cnt}; {len(want_ids)} satisfy every statement")
+        return
+    run.case(dict(kind="bigfilter", n=n), ("bigfilter", json.dumps(case, sort_keys=True, default=str)) if 0 < len(want_ids) < n else None)
+
+
 # ----------------------------------------------------------------------------- flushing
 def flush(run, drv, pending):
     out = drv.run()
     for case, i, impl, band in pending:
         model = out[i]
+        if "|" in model:                       # c04_hist: `flags|ids of object 0`
+            model = model.split("|", 1)[1]
         if band and not model.startswith("exc") and model != "bad-op":
             model = ",".join(t for t in model.split(",") if t != "-" and int(t) not in band) or "-"
         if impl == "exc":
@@ -513,7 +923,21 @@ def run_all(run, rng, tier, Driver):
             flush(run, drv, pending)
     flush(run, drv, pending)
     for _ in range(1200 if tier == "quick" else 12000):
-        extra_case(run, gen_extra_case(rng))
+        nan_case(run, drv, pending, gen_nan_case(rng))
+        if len(pending) >= 2000:
+            flush(run, drv, pending)
+    for _ in range(600 if tier == "quick" else 6000):
+        session_case(run, drv, pending, gen_session_case(rng))
+        if len(pending) >= 2000:
+            flush(run, drv, pending)
+    flush(run, drv, pending)
+    for _ in range(2 if tier == "quick" else 12):
+        bigfilter_case(run, gen_bigfilter_case(rng))
+    for _ in range(1200 if tier == "quick" else 12000):
+        extra_case(run, gen_extra_case(rng), drv, pending)
+        if len(pending) >= 2000:
+            flush(run, drv, pending)
+    flush(run, drv, pending)
 
 
 def replay(run, case, Driver):
@@ -522,6 +946,12 @@ def replay(run, case, Driver):
         mct_case(run, drv, pending, case)
     elif case["kind"] == "next":
         next_case(run, drv, pending, {k: v for k, v in case.items() if k != "catalog"})
+    elif case["kind"] == "nan":
+        nan_case(run, drv, pending, case)
+    elif case["kind"] == "session":
+        session_case(run, drv, pending, case)
+    elif case["kind"] == "bigfilter":
+        bigfilter_case(run, case)
     else:
-        extra_case(run, case)
+        extra_case(run, case, drv, pending)
     flush(run, drv, pending)
